@@ -30,10 +30,14 @@ var (
 
 // faultOp is one step of a fault history: an Update or a read.
 type faultOp struct {
-	Read  bool // GetCheckpoint(LogID) instead of Update
-	Logs  bool // GetLogs
-	Req   wh.Req
-	Label string
+	// Outside: a request outside wmodel (refused for a reason the protocol
+	// table does not know): it must be refused and change nothing; its verdict
+	// is not compared with the model.
+	Outside bool
+	Read    bool // GetCheckpoint(LogID) instead of Update
+	Logs    bool // GetLogs
+	Req     wh.Req
+	Label   string
 }
 
 type faultHistory struct {
@@ -111,7 +115,7 @@ func timed(f func()) bool {
 var faultViews = map[string][]string{
 	"C01": {"split-view-under-fault"},
 	"C04": {"handed-out-under-fault"},
-	"C06": {"false-success", "state-changed-on-error"},
+	"C06": {"false-success", "state-changed-on-error", "accepted-under-fault", "split-view-under-fault"},
 	"C08": {"suffix-growth-refused", "blocked", "wedge"},
 	"C09": {"fault-free-mismatch", "suffix-fork-not-refused", "suffix-growth-refused", "wrong-verdict-under-fault", "accepted-under-fault"},
 	"C16": {"read-wrong-bytes", "read-logs-wrong", "read-fault-reported-as-not-found", "suffix-read", "read-failed-without-fault"},
@@ -393,6 +397,12 @@ func faultExec(run *ev.Run, view string, u *uni.U, gen *wh.CPGen, logs []wh.LogC
 				}
 			}
 		}
+		if op.Outside {
+			if out.Err == nil || !post.Equal(pre) {
+				report(sig("state-changed-on-error"), desc("a request that cannot be accepted was accepted or changed the stored state"), replay(nil))
+			}
+			continue
+		}
 		if c03only {
 			if out.Err != nil && !afterEffect {
 				if !post.Equal(pre) {
@@ -561,6 +571,14 @@ func faultHistories(u *uni.U, gen *wh.CPGen, la, lb wh.LogCfg) []faultHistory {
 		{Name: "growth-then-fork-from-the-same-size", Prefix: []wh.Req{tofuA}, Ops: []faultOp{
 			up(req(la, m, 4, 6, 4, "growth A 4->6")), up(req(la, u.Forks[1], 4, 6, 4, "fork F4@6 from 4 (consistent with main@4, not with main@6; stale if the growth was stored)")), rd(la),
 			up(req(la, m, 4, 6, 4, "growth A 4->6 again (stale / refused if something else was stored)"))}},
+		{Name: "refused-after-the-store-was-opened", Prefix: []wh.Req{tofuA}, Ops: []faultOp{
+			func() faultOp {
+				r := req(lb, m, 0, 3, 0, "first use B main@3 with 99 unknown signature lines (cannot be cosigned: refused after WriteOps)")
+				cp, meta := gen.Get(lb, m, 3, "junk99")
+				meta.Broken = true
+				r.CP, r.Meta = cp, meta
+				return faultOp{Req: r, Label: r.Label, Outside: true}
+			}(), rd(lb), up(req(lb, m, 0, 3, 0, "first use B main@3")), up(req(la, m, 4, 5, 4, "growth A 4->5"))}},
 		{Name: "two-logs", Prefix: []wh.Req{tofuA}, Ops: []faultOp{
 			up(req(lb, m, 0, 3, 0, "first use B main@3")), up(req(la, m, 4, 5, 4, "growth A 4->5")), {Logs: true, Label: "list logs"}, up(req(lb, m, 3, 5, 3, "growth B 3->5"))}},
 	}
@@ -624,10 +642,10 @@ func runFaults(run *ev.Run, prop, tier string, c03only bool) {
 	run.Add("evaluations", total)
 	run.Add("fault_executions", total)
 	if view {
-		run.Set("fault_leg", fmt.Sprintf("the C07 fault enumeration (7 histories x {in-memory, SQLite} x {interface-level, SQL-driver-level} faults, every single fault placement, fault-free suffix) with the oracles this property owns: %v", faultViews[prop]))
+		run.Set("fault_leg", fmt.Sprintf("the C07 fault enumeration (8 histories x {in-memory, SQLite} x {interface-level, SQL-driver-level} faults, every single fault placement, fault-free suffix) with the oracles this property owns: %v", faultViews[prop]))
 		return
 	}
 	if !c03only {
-		run.Set("rule", "for each of 7 histories (first use; growth/refresh/growth; refresh first; every refused kind then growth; a fork submitted as first use over an existing state; growth then a fork from the same old size; two logs) x {in-memory, SQLite single connection} x {interface-level faults on WriteOps / GetLatest (plain, gRPC Unavailable, gRPC Internal) / Set (before effect, after effect) / Close / ReadOps / Logs; SQL-driver-level faults on begin, prepare, query, next, exec, commit (rolled back / committed), rollback}: every placement of up to <deviation_bound> faults (positions discovered dynamically, deviation-bounded DFS), each execution followed by a fault-free suffix (read, refused fork, honest growth). distinct_nontrivial = distinct (store, level, history, fault placement) with at least one fault")
+		run.Set("rule", "for each of 8 histories (first use; a first use that is refused only after the store was opened for writing, then ordinary requests; growth/refresh/growth; refresh first; every refused kind then growth; a fork submitted as first use over an existing state; growth then a fork from the same old size; two logs) x {in-memory, SQLite single connection} x {interface-level faults on WriteOps / GetLatest (plain, gRPC Unavailable, gRPC Internal) / Set (before effect, after effect) / Close / ReadOps / Logs; SQL-driver-level faults on begin, prepare, query, next, exec, commit (rolled back / committed), rollback}: every placement of up to <deviation_bound> faults (positions discovered dynamically, deviation-bounded DFS), each execution followed by a fault-free suffix (read, refused fork, honest growth). distinct_nontrivial = distinct (store, level, history, fault placement) with at least one fault")
 	}
 }
